@@ -378,7 +378,8 @@ def _device_connect(ctx, R, roles, T):
             for attr in stored:
                 if d.var == selfn + "." + attr and d.kind in ("assign", "aug"):
                     stored[attr].append((x, d))
-    falses = [x for (x, d) in stored["_available"] if d.kind == "assign" and not d.path and isinstance(unawait(d.value), ast.Constant) and unawait(d.value).value is False]
+    from .c13 import is_unavailable_value
+    falses = [x for (x, d) in stored["_available"] if d.kind == "assign" and not d.path and d.value is not None and is_unavailable_value(roles.dev_cls, d.value)]
     results = {}
     for attr, idx in (("_available", 0), ("_maxdata", 1)):
         good = []
